@@ -42,11 +42,15 @@ DefEff == [t |-> 0, kiai |-> FALSE, scroll |-> 1000]
 DefSmp == [t |-> 0, bank |-> 1, vol |-> 100, custom |-> 0]
 DefBeatLen == 1000
 
-\* is_redundant of each kind (times are not compared).  A NEGATIVE velocity / scroll value stands for a
-\* non-finite one (-1 NaN, -2 infinity; only reachable through struct literals): `|a - b| < epsilon` is
-\* false for it, also against itself, so such a point never counts as a repeat
-DifRed(a, b) == a.ticks = b.ticks /\ a.sv = b.sv /\ a.sv >= 0
-EffRed(a, b) == a.kiai = b.kiai /\ a.scroll = b.scroll /\ a.scroll >= 0
+\* "merely repeats" of each kind (times are not compared).  A NEGATIVE velocity / scroll value stands for a
+\* non-finite one (-1 NaN, -2 infinity; only reachable through struct literals).  NaN equals nothing, not even
+\* itself, so it never repeats; infinity equals infinity, so by the statement a second infinite point repeats
+\* the first.  The code tests `|a - b| < epsilon`, which is false for inf - inf = NaN: its reading is DifRedW /
+\* EffRedW (a non-finite value never repeats), emitted next to the statement's as `postw` (known finding, C13).
+DifRed(a, b) == a.ticks = b.ticks /\ a.sv = b.sv /\ a.sv # -1
+EffRed(a, b) == a.kiai = b.kiai /\ a.scroll = b.scroll /\ a.scroll # -1
+DifRedW(a, b) == DifRed(a, b) /\ a.sv >= 0
+EffRedW(a, b) == EffRed(a, b) /\ a.scroll >= 0
 SmpRed(a, b) == a.bank = b.bank /\ a.vol = b.vol /\ a.custom = b.custom
 
 \* check_already_existing of each kind, evaluated at the moment of the call
@@ -59,6 +63,14 @@ Redundant(cp, k, p) ==
 \* ControlPoints::add
 AddPoint(cp, k, p) ==
     IF Redundant(cp, k, p) THEN cp
+    ELSE [cp EXCEPT ![k] = InsRep(@, p)]
+\* ... under the code's reading of a repeat
+RedundantW(cp, k, p) ==
+    CASE k = "dif" -> LET i == IdxLE(cp.dif, p.t) IN DifRedW(p, IF i > 0 THEN cp.dif[i] ELSE DefDif)
+      [] k = "eff" -> LET i == IdxLE(cp.eff, p.t) IN EffRedW(p, IF i > 0 THEN cp.eff[i] ELSE DefEff)
+      [] OTHER -> Redundant(cp, k, p)
+AddPointW(cp, k, p) ==
+    IF RedundantW(cp, k, p) THEN cp
     ELSE [cp EXCEPT ![k] = InsRep(@, p)]
 
 AddTim(cp, p) == AddPoint(cp, "tim", p)
